@@ -118,6 +118,7 @@ class Contract:
     inline = ()  # names of helpers executed inline (documentation for the evidence)
     max_paths = 400
     pure = True  # frame: does not write to argument storage
+    frame_attrs = None  # methods: attributes of `self` the call may create / rebind (None = unchecked)
 
     # --- to be provided by subclasses
     def configs(self, tier):
@@ -205,6 +206,10 @@ def default_patches(P, mod):
     g = mod.__dict__
     if "np" in g:
         P.set(mod, "np", NP)
+    if "xr" in g:
+        from .prelude_xr import XR
+
+        P.set(mod, "xr", XR)
     P.set(mod, "int", sym_int)
     P.set(mod, "float", sym_float)
     P.set(mod, "len", sym_len)
@@ -298,6 +303,12 @@ def _engine_fault(exc):
     if last is None:
         return False
     fn = last.tb_frame.f_code.co_filename
+    if "site-packages" in fn or "/lib/python3" in fn:
+        # raised inside a real third-party / stdlib routine: a proxy leaked past the prelude.
+        # (scikit-learn's NotFittedError from check_is_fitted is genuine behaviour.)
+        if type(exc).__name__ in ("NotFittedError",):
+            return False
+        return True
     if "/pyvc/" in fn and isinstance(exc, (AttributeError, TypeError, NameError, KeyError, NotImplementedError, AssertionError, RecursionError)):
         # TypeError / IndexError / ValueError deliberately raised by the prelude to mirror numpy are
         # raised with explicit `raise` statements in pyvc; those carry numpy's message. We only
@@ -348,6 +359,8 @@ def verify_path(contract, cfg, c, prop="", replay_hook=None):
         finally:
             c.in_spec -= 1
         input_storages = _input_storages(args, kwargs)
+        self_obj = args[0] if (args and contract.frame_attrs is not None) else None
+        attrs_before = dict(vars(self_obj)) if self_obj is not None else None
         try:
             result = func(*args, **kwargs)
             out.kind = "return"
@@ -398,6 +411,15 @@ def verify_path(contract, cfg, c, prop="", replay_hook=None):
                         c.oblige(nm + ".justified", cond, kind="post")
                     else:
                         c.oblige(nm + ".required", not_(cond) if not isinstance(cond, bool) else (not cond), kind="post")
+            if self_obj is not None:
+                after = vars(self_obj)
+                changed = sorted(k for k in set(after) | set(attrs_before) if (k not in after) or (k not in attrs_before) or (after[k] is not attrs_before[k]))
+                bad = [k for k in changed if k not in contract.frame_attrs]
+                nm = "%s:frame.only_declared_attributes_written" % label
+                if bad:
+                    c.fail(nm, "attributes outside the frame were written: %s" % bad, kind="frame")
+                else:
+                    c.ok(nm, kind="frame", txt="attributes written: %s" % changed)
             if contract.pure:
                 written = [st for st in input_storages if st.nwrites > 0]
                 nm = "%s:frame.no_write_to_inputs" % label
